@@ -19,6 +19,21 @@ Shape of the output (all in namespace PlumVerif.PyCode, values are `Py.V`, resul
     leading `fuel : Nat` and answers `outOfFuel` when a loop runs longer;
   * `async def` functions run in `Py.IOM` (state = the bytes still to arrive);
   * module-level constants / enum members are folded from the source and emitted as `def c_*`.
+Round 8 (payload decoders of structures/*.py):
+  * a method that reads / assigns attributes of `self` takes the instance `v_self` first and returns
+    `(result, instance after the call)`; `self.x` is `Py.getattr`, `self.x = e` / `self.x += e` is `Py.setattr`;
+    `v_self` is threaded through `if` / `for` like any assigned local; any other use of `self` is rejected;
+  * a generator function (`yield <value>` statements) is translated EAGERLY to a function returning the list of
+    yielded values; a call of one is accepted only as the argument of `list(...)` / `dict(...)`;
+  * `*args` parameters (the extra positional arguments of a call as a tuple), dict displays with constant string keys,
+    `d1 |= d2` on dicts as a value operation (aliasing is not modelled), `x.attr` of a value (`Py.getattr`);
+  * module-level instances of data classes (`THERMOSTAT_PARAMETERS`) are folded from their constructor calls (C3
+    linearisation of the bases for the field defaults); a field whose value is outside the value domain (float, string
+    enum) is left out and the object marked partial (reading such a field answers `unsupported`);
+  * a read of a local that no path has assigned is `Py.unboundLocal` (UnboundLocalError); `if A and B:` with assignment
+    expressions in the operands is `if A: (if B: …)`; a variable first assigned inside a `for` body and never used
+    outside the loop is local to one iteration;
+  * TRUSTED primitive: `<device>.get_nowait(name, default)` (contract in Model/PyPreludeStruct.lean).
 Ignored (documented, trusted): decorators (`@timeout`, `@cache`), docstrings, type annotations,
 `_LOGGER.*(...)` statements, the arguments (messages) of raised exceptions, `from e` chaining.
 """
